@@ -287,4 +287,156 @@ theorem gen_lines_slice_is_model (dbg : Bool) (s : Str) (i j : USz) :
            simp [h2, hr, Res.map']
            cases Strings.strIndex s.chars start_idx a.fst <;> simp)
 
+/-! ## `StringBytes::get/slice`, `StringLines::get` over the generated definitions
+
+`Str.dropBytes/takeBytes` (option-valued, `Model/Builtins`) against `is_char_boundary` over
+the encoded bytes (`Model/Strings`): both are "the offset is where a character starts". -/
+
+theorem dropBytes_some (cs : List Char) (i : Nat) (t : List Char) (h : Str.dropBytes cs i = some t) :
+    ∃ k, k ≤ cs.length ∧ Str.byteLenL (cs.take k) = i := by
+  induction cs generalizing i with
+  | nil =>
+    cases i with
+    | zero => exact ⟨0, by simp, by simp [Str.byteLenL]⟩
+    | succ i => simp [Str.dropBytes] at h
+  | cons c cs ih =>
+    cases i with
+    | zero => exact ⟨0, by simp, by simp [Str.byteLenL]⟩
+    | succ i =>
+      simp only [Str.dropBytes] at h
+      split at h
+      · rename_i hle
+        obtain ⟨k, hk, he⟩ := ih _ h
+        exact ⟨k + 1, by simpa using hk, by simp [Str.byteLenL, he]; omega⟩
+      · simp at h
+
+/-- `s.get(i..)` in the translator's vocabulary: the characters from the one that starts at byte `i` -/
+theorem dropBytes_eq (cs : List Char) (i : Nat) :
+    Str.dropBytes cs i = (Strings.boundaryIdx cs i).map (fun k => cs.drop k) := by
+  cases hb : Strings.boundaryIdx cs i with
+  | some k =>
+    obtain ⟨hk, he⟩ := (Strings.boundaryIdx_iff cs i k).1 hb
+    rw [← he, ← byteLenL_eq, Str.dropBytes_take _ _ hk]; rfl
+  | none =>
+    cases hd : Str.dropBytes cs i with
+    | none => rfl
+    | some t =>
+      obtain ⟨k, hk, he⟩ := dropBytes_some cs i t hd
+      have := (Strings.boundaryIdx_iff cs i k).2 ⟨hk, by rw [← byteLenL_eq]; exact he⟩
+      simp [hb] at this
+
+theorem strGetFrom_eq (cs : List Char) (i : Nat) :
+    Strings.strGetFrom cs i = (Strings.boundaryIdx cs i).map (fun k => cs.drop k) := by
+  unfold Strings.strGetFrom
+  rw [Strings.isCharBoundary_eq_isSome]
+  cases hb : Strings.boundaryIdx cs i with
+  | some k =>
+    obtain ⟨hk, he⟩ := (Strings.boundaryIdx_iff cs i k).1 hb
+    simp [← he, Strings.dropBytes_prefix cs k hk]
+  | none => simp
+
+/-- `StringBytes::get` (generated) = the model `bytesGet` = the documented meaning. -/
+theorem gen_bytes_get (dbg : Bool) (s : Str) (idx : USz) :
+    StringBytes_get dbg s idx = .ok (Strings.specBytesGet s.chars idx.toNat) := by
+  rw [← Strings.bytesGet_eq_spec]
+  simp only [StringBytes_get, Str.get_from, ToOff.toOff, dropBytes_eq, Strings.bytesGet, strGetFrom_eq,
+    Str.next_char, Res.pure_eq]
+  cases Strings.boundaryIdx s.chars idx.toNat <;> simp
+
+/-- `StringLines::get` (generated) has the body of `StringBytes::get`. -/
+theorem gen_lines_get (dbg : Bool) (s : Str) (idx : USz) :
+    StringLines_get dbg s idx = .ok (Strings.linesGet s.chars idx.toNat) := by
+  have : Strings.linesGet s.chars idx.toNat = Strings.specBytesGet s.chars idx.toNat :=
+    Strings.bytesGet_eq_spec _ _
+  rw [this, ← gen_bytes_get dbg]; rfl
+theorem takeBytes_some (cs : List Char) (i : Nat) (t : List Char) (h : Str.takeBytes cs i = some t) :
+    ∃ k, k ≤ cs.length ∧ Str.byteLenL (cs.take k) = i := by
+  induction cs generalizing i t with
+  | nil =>
+    cases i with
+    | zero => exact ⟨0, by simp, by simp [Str.byteLenL]⟩
+    | succ i => simp [Str.takeBytes] at h
+  | cons c cs ih =>
+    cases i with
+    | zero => exact ⟨0, by simp, by simp [Str.byteLenL]⟩
+    | succ i =>
+      simp only [Str.takeBytes] at h
+      split at h
+      · rename_i hle
+        cases ht : Str.takeBytes cs (i + 1 - c.utf8Size) with
+        | none => simp [ht] at h
+        | some t' =>
+          obtain ⟨k, hk, he⟩ := ih _ _ ht
+          exact ⟨k + 1, by simpa using hk, by simp [Str.byteLenL, he]; omega⟩
+      · simp at h
+
+theorem takeBytes_eq (cs : List Char) (i : Nat) :
+    Str.takeBytes cs i = (Strings.boundaryIdx cs i).map (fun k => cs.take k) := by
+  cases hb : Strings.boundaryIdx cs i with
+  | some k =>
+    obtain ⟨hk, he⟩ := (Strings.boundaryIdx_iff cs i k).1 hb
+    rw [← he, ← byteLenL_eq, Str.takeBytes_take _ _ hk]; rfl
+  | none =>
+    cases hd : Str.takeBytes cs i with
+    | none => rfl
+    | some t =>
+      obtain ⟨k, hk, he⟩ := takeBytes_some cs i t hd
+      have := (Strings.boundaryIdx_iff cs i k).2 ⟨hk, by rw [← byteLenL_eq]; exact he⟩
+      simp [hb] at this
+
+/-- `s.get(a..b)` means the same in both vocabularies, for ALL offsets -/
+theorem get_range_eq (cs : List Char) (a b : Nat) :
+    Str.get_range ⟨cs⟩ a b = (Strings.strGet cs a b).map Str.mk := by
+  simp only [Str.get_range, ToOff.toOff, id, dropBytes_eq, takeBytes_eq]
+  unfold Strings.strGet
+  rw [Strings.isCharBoundary_eq_isSome, Strings.isCharBoundary_eq_isSome]
+  by_cases hab : a ≤ b
+  · simp only [hab, ↓reduceIte, true_and]
+    cases ha : Strings.boundaryIdx cs a with
+    | none => simp
+    | some k =>
+      obtain ⟨hk, hea⟩ := (Strings.boundaryIdx_iff cs a k).1 ha
+      simp only [Option.map_some, Option.isSome_some, true_and]
+      cases hb : Strings.boundaryIdx cs b with
+      | some k' =>
+        obtain ⟨hk', heb⟩ := (Strings.boundaryIdx_iff cs b k').1 hb
+        have hkk : k ≤ k' := by
+          by_cases h : k ≤ k'
+          · exact h
+          · have := Strings.byteLen_take_strictMono cs k' k (by omega) hk
+            omega
+        have hd : Strings.boundaryIdx (cs.drop k) (b - a) = some (k' - k) := by
+          rw [Strings.boundaryIdx_iff]
+          refine ⟨by simp; omega, ?_⟩
+          rw [List.take_drop] at *
+          have := Strings.byteLen_take_drop cs k k' hkk hk'
+          rw [← List.take_drop] 
+          rw [this, hea, heb]
+        have hg := Strings.strGet_prefix cs k k' hkk hk'
+        unfold Strings.strGet at hg
+        rw [Strings.isCharBoundary_eq_isSome, Strings.isCharBoundary_eq_isSome, hea, heb, ha, hb] at hg
+        simp only [hab, Option.isSome_some, and_self, ↓reduceIte] at hg
+        simp only [hd, Option.map_some, Option.isSome_some, ↓reduceIte, hg]
+      | none =>
+        simp only [Option.isSome_none, Bool.false_eq_true, ↓reduceIte, Option.map_none]
+        cases hd : Strings.boundaryIdx (cs.drop k) (b - a) with
+        | none => simp
+        | some m =>
+          obtain ⟨hm, hem⟩ := (Strings.boundaryIdx_iff _ _ _).1 hd
+          have hm' : k + m ≤ cs.length := by simp at hm; omega
+          have h1 := Strings.byteLen_take_drop cs k (k + m) (by omega) hm'
+          simp only [Nat.add_sub_cancel_left] at h1
+          have h2 := Strings.byteLen_take_mono cs k (k + m) (by omega) hm'
+          have := (Strings.boundaryIdx_iff cs b (k + m)).2 ⟨hm', by omega⟩
+          simp [hb] at this
+  · simp [hab]
+
+/-- `StringBytes::slice` (generated) = the documented meaning, for all strings and offsets. -/
+theorem gen_bytes_slice (dbg : Bool) (s : Str) (i j : USz) :
+    StringBytes_slice dbg s i j = .ok ((Strings.specBytesSlice s.chars i.toNat j.toNat).map Str.mk) := by
+  have h := Strings.bytesSlice_eq_spec s.chars i.toNat j.toNat
+  simp only [Strings.bytesSlice, Res.ok.injEq] at h
+  rw [← h, ← get_range_eq]
+  rfl
+
 end RotoV.StringsGen
